@@ -157,6 +157,7 @@ impl Hist {
                 }
                 "ok".to_string()
             }
+            "map" => format!("map {}", map_digest(&self.dir.path().join("event.map"))),
             "reopen" => {
                 let s = self.store.take().unwrap();
                 drop(s);
@@ -326,6 +327,26 @@ pub fn cmd_dbhist(t: &mut Toks, root: &std::path::Path) -> String {
     format!("dbhist {}", segs.join(" | "))
 }
 
+/// the content of the event map file as `len:end:tail:block hashes` (1 KiB blocks of [0,end); `z` = all bytes beyond the
+/// end marker are zero, else their hash); `none` when there is no such file.  The runner prints the same digest of the
+/// byte-level model's file (LogBytes.v).
+pub fn map_digest(path: &std::path::Path) -> String {
+    match std::fs::read(path) {
+        Err(_) => "none".to_string(),
+        Ok(b) => {
+            let len = b.len();
+            if len < 8 {
+                return format!("{}:short:{}", len, fnv(&b));
+            }
+            let end = u64::from_le_bytes(b[0..8].try_into().unwrap());
+            let e = (end as usize).min(len);
+            let tail = if b[e..].iter().all(|x| *x == 0) { "z".to_string() } else { fnv(&b[e..]) };
+            let blocks: Vec<String> = b[..e].chunks(1024).map(fnv).collect();
+            format!("{}:{}:{}:{}", len, end, tail, blocks.join("."))
+        }
+    }
+}
+
 // ---------------------------------------------------------------- crash engine (C13)
 use std::sync::atomic::{AtomicI64, AtomicU64, Ordering};
 use std::sync::Mutex;
@@ -446,16 +467,18 @@ pub fn cmd_crash(t: &mut Toks, root: &std::path::Path, line: &str) -> String {
     while t.i < t.a.len() && t.a[t.i] != ";;" {
         t.i += 1;
     }
+    // what the kill left in the event map file, before anything reopens it
+    let file = map_digest(&dir.path().join("event.map"));
     let mut h = match Hist::open(dir, leak_names(&names)) {
         Ok(h) => h,
-        Err(e) => return format!("crash child={how} reopen=err:{e}"),
+        Err(e) => return format!("crash child={how} file={file} reopen=err:{e}"),
     };
     // continuation: `;; op ; op ...`
     if t.i < t.a.len() {
         t.a[t.i] = ";";
     }
     let segs = run_ops(&mut h, t, ";");
-    format!("crash child={} reopen=ok | {}", how, segs.join(" | "))
+    format!("crash child={} file={} reopen=ok | {}", how, file, segs.join(" | "))
 }
 
 // ---------------------------------------------------------------- references (C15)
